@@ -27,6 +27,7 @@ import threading
 import time
 import typing
 
+import forml
 from forml.io import asset as assetmod
 
 if typing.TYPE_CHECKING:
@@ -126,11 +127,16 @@ class Latest(Selector):
                 instances = tuple(self._cache.items())
             LOGGER.debug('Refreshing %d cached instances', len(instances))
             for registry, old in instances:
-                new = self._pick(registry)
-                if new != old:
-                    LOGGER.info('Updating latest instance to %s', new)
-                    with self._lock:
-                        self._cache[registry] = new
+                try:
+                    new = self._pick(registry)
+                    if new == old:
+                        continue
+                except forml.AnyError as err:  # e.g. still no generation available - must not kill the refresher
+                    LOGGER.warning('Unable to refresh the latest instance of %s: %s', registry, err)
+                    continue
+                LOGGER.info('Updating latest instance to %s', new)
+                with self._lock:
+                    self._cache[registry] = new
             time.sleep(self._interval)
 
     def _pick(self, registry: 'asset.Directory') -> 'asset.Instance':
